@@ -40,7 +40,17 @@ where
     for (i, op) in case.ops.iter().enumerate() {
         match op {
             ROp::Plain(op) => {
-                if let Err(e) = sut.apply(op, obs) {
+                // fetches made on behalf of the vector while it executes a mutation (decoding the partial
+                // page, collecting the previous values for a change record, ...) are held to the same rule
+                tap_begin();
+                let r = sut.apply(op, obs);
+                let (n, violations) = tap_end();
+                obs.count("accesses_checked_during_mutations", n);
+                if let Some(v) = violations.first() {
+                    result = Err(format!("{tag} op #{i} {op:?}: {v}"));
+                    break;
+                }
+                if let Err(e) = r {
                     result = Err(format!("{tag} op #{i} {op:?}: {e}"));
                     break;
                 }
